@@ -26,7 +26,8 @@ func (Prop) Configs(tier string) []string {
 	// c-default: fused asm GCM (AVX2 8-block SM4); c-noavx2 / c-sse: the AVX / SSE bodies of the same asm;
 	// c-nopclmul: table-driven GHASH over the asm block (sm4CipherAsm.NewGCM); c-noaes and c-purego: Go SM4
 	// with the stdlib generic GCM; c-aesni1: single-block AES-NI SM4 for tag mask / CCM.
-	return []string{"c-default", "c-noavx2", "c-sse", "c-nopclmul", "c-noaes", "c-aesni1", "c-purego"}
+	// c-avxoff: AVX off with AVX2 still on (the cpu options do not cascade)
+	return []string{"c-default", "c-noavx2", "c-sse", "c-nopclmul", "c-noaes", "c-aesni1", "c-purego", "c-avxoff"}
 }
 func (Prop) SelfTest() error { return aeadref.SelfTest() }
 
